@@ -97,6 +97,8 @@ pub struct Sim {
     pending_fail: Option<u32>,
     /// completed remaps of the event map when the current store began
     remaps_before: u64,
+    /// the extra tables are listed in reverse order at the next open (`tables n` with n >= 10)
+    tables_reversed: bool,
     pending_starve: bool,
     pending_fsize: Option<u8>,
     /// end the run without a finding (the state left is one no property speaks about)
@@ -120,8 +122,12 @@ pub struct Sim {
     fresh_counter: u64,
 }
 
-fn extra_names(n: u8) -> Vec<&'static str> {
-    EXTRA_NAMES[..n as usize].to_vec()
+fn extra_names(n: u8, reversed: bool) -> Vec<&'static str> {
+    let mut v = EXTRA_NAMES[..n as usize].to_vec();
+    if reversed {
+        v.reverse();
+    }
+    v
 }
 
 fn file_len(p: &Path) -> u64 {
@@ -150,6 +156,7 @@ impl Sim {
             pending_crash: None,
             pending_fail: None,
             remaps_before: 0,
+            tables_reversed: false,
             pending_starve: false,
             pending_fsize: None,
             stop: false,
@@ -289,7 +296,7 @@ impl Sim {
         let crash = self.cfg.mode == Mode::Crash;
         self.hooks_begin(crash, None);
         let dir = self.dir.clone();
-        let names = extra_names(self.cfg.extra_tables);
+        let names = extra_names(self.cfg.extra_tables, self.tables_reversed);
         let r = real::catch(|| Store::new(&dir, names));
         let (points, snaps, _, _) = self.hooks_end();
         self.stats.add("points_crossed", points.len() as u64);
@@ -1730,7 +1737,9 @@ impl Sim {
     /// show must be unchanged (the rows of a table that is opened again later are compared with the
     /// model at the next step, like everything else)
     fn do_tables(&mut self, i: usize, n: u8) -> Option<Finding> {
-        let n = n.min(EXTRA_NAMES.len() as u8);
+        // (n >= 10: the first n - 10 tables, listed in reverse order)
+        let reversed = n >= 10;
+        let n = (n % 10).min(EXTRA_NAMES.len() as u8);
         let before = self.observe();
         self.stats.inc("fault/restart/close_new_other_tables");
         self.refs.clear();
@@ -1738,6 +1747,7 @@ impl Sim {
         self.close_store();
         let was = self.cfg.extra_tables;
         self.cfg.extra_tables = n;
+        self.tables_reversed = reversed;
         if let Err(f) = self.open_store(i) {
             return Some(f);
         }
@@ -1847,7 +1857,7 @@ impl Sim {
         }
         let _ = fs::remove_dir_all(&self.dir);
         self.dir = dst;
-        let names = extra_names(self.cfg.extra_tables);
+        let names = extra_names(self.cfg.extra_tables, self.tables_reversed);
         let d = self.dir.clone();
         match real::catch(|| Store::new(&d, names)) {
             Ok(Ok(s)) => self.store = Some(s),
@@ -2034,7 +2044,7 @@ impl Sim {
             Ok(())
         })();
         if copied.is_ok() {
-            let names = extra_names(self.cfg.extra_tables);
+            let names = extra_names(self.cfg.extra_tables, self.tables_reversed);
             match real::catch(|| Store::new(&chk, names)) {
                 Ok(Ok(bs)) => {
                     // the backup's offsets are the pre-rebuild offsets
@@ -2151,7 +2161,7 @@ impl Sim {
             self.disturb("crash");
             self.log.push(format!("#{i} continue from kill point {}", chosen.unwrap()));
             // plain open (its own kill points were exercised by reopen ops)
-            let names = extra_names(self.cfg.extra_tables);
+            let names = extra_names(self.cfg.extra_tables, self.tables_reversed);
             let d = self.dir.clone();
             match real::catch(|| Store::new(&d, names)) {
                 Ok(Ok(s)) => self.store = Some(s),
@@ -2189,7 +2199,7 @@ impl Sim {
         } else {
             dir.to_path_buf()
         };
-        let names = extra_names(self.cfg.extra_tables);
+        let names = extra_names(self.cfg.extra_tables, self.tables_reversed);
         let w2 = work.clone();
         let snap = match real::catch(|| Store::new(&w2, names)) {
             Ok(Ok(s)) => s,
